@@ -18,7 +18,7 @@ from . import control_world as W
 from . import model, wmod
 from .control_run import Capture, class_ctx, make_pool, run_async
 
-STEP_WAIT = 3.0          # bounded wait for an observation the implementation owes
+STEP_WAIT = 2.5          # bounded wait for an observation the implementation owes
 HOLD = 0.03              # a state that must *not* change is looked at again after this long
 PY = sys.executable
 
@@ -240,7 +240,7 @@ class CliClient:
         except (ConnectionError, OSError):
             pass
         try:
-            rc = await asyncio.wait_for(self.proc.wait(), 15)
+            rc = await asyncio.wait_for(self.proc.wait(), 8)
         except asyncio.TimeoutError:
             self.proc.kill()
             await self.proc.wait()
@@ -693,11 +693,9 @@ class NetRun:
                 except Exception:
                     pass
             if getattr(self, "task", None) is not None and not self.task.done():
+                # never `wait_for` here: a serving task that cannot finish would swallow the cancellation of the wait
                 self.task.cancel()
-                try:
-                    await asyncio.wait_for(asyncio.gather(self.task, return_exceptions=True), 1.0)
-                except asyncio.TimeoutError:
-                    pass
+                await asyncio.wait([self.task], timeout=0.3)
             await W.settle_pool(pool)
             shutil.rmtree(self.dir, ignore_errors=True)
             gc.enable()
